@@ -1406,6 +1406,13 @@ fn handle_impl(cx: &mut Ctx, imp: &ItemImpl, wanted: &dyn Fn(&str) -> bool) {
         }
         None => true,
     };
+    // the names of all functions of an impl block some function of which is under contract (a function added to it later is code no contract covers)
+    if selected && imp.items.iter().any(|ii| matches!(ii, ImplItem::Fn(f) if wanted(&f.sig.ident.to_string()))) {
+        let hdr = match &imp.trait_ { Some((_, path, _)) => format!("impl{}for{}", norm(path), norm(&imp.self_ty)), None => format!("impl{}", norm(&imp.self_ty)) };
+        let names: Vec<String> = imp.items.iter().filter_map(|ii| if let ImplItem::Fn(f) = ii {
+            if f.attrs.iter().any(|a| a.path().is_ident("cfg") && norm(a).contains("test")) { None } else { Some(f.sig.ident.to_string()) } } else { None }).collect();
+        cx.p.log.push(format!("MEMBERS {} {}", hdr, names.join(",")));
+    }
     for ii in imp.items.iter() {
         if let ImplItem::Fn(f) = ii {
             if f.attrs.iter().any(|a| a.path().is_ident("cfg") && norm(a).contains("test")) { continue; }
